@@ -819,6 +819,9 @@ func trunc(b []byte, n int) []byte {
 }
 
 // c15Semantic crafts corruptions that keep the encoding well-formed but break a validity rule.
+// a 1023-bit safe prime (p = 2q+1, q prime), generated once offline with crypto/rand.Prime; re-validated by c15Semantic's users through the rule oracle
+const c15SafePrime1023 = "7b5b93abac8b6f40ccc86b52e2fdd3332dd61580ab6da50ddb4cd4853a0a5e1ad6b9692a6d042dd032d779640399c8969a84e74c20cd49679d6efac2c8ba3970e724aa91207112ec50aad8d86f519a77a04ecf5071083d2bc34173b35299f6778eed386dba9574d9acc287b05548b4e73fd947c4fb79d04bbe4ffc66dc104cd7"
+
 func c15Semantic(name string, data []byte, r *vk.Rand) []adv.Variant {
 	root, err := adv.Decode(data)
 	if err != nil {
@@ -858,6 +861,14 @@ func c15Semantic(name string, data []byte, r *vk.Rand) []adv.Variant {
 				add("number-zero", []byte{0})
 				p2 := new(big.Int).Add(new(big.Int).SetBytes(x), big.NewInt(2)).Bytes()
 				add("number-plus2", p2)
+				if len(x) == 128 {
+					// well-formed but too short primes (p = 2q+1 with q prime), stored on the full 128-byte width
+					pad := func(b []byte) []byte { return append(make([]byte, 128-len(b)), b...) }
+					sp, _ := new(big.Int).SetString(c15SafePrime1023, 16)
+					add("prime-1023-bit-safe-padded", pad(sp.Bytes()))
+					add("prime-7-padded", pad([]byte{7}))
+					add("prime-23-padded", pad([]byte{23}))
+				}
 			}
 		case uint64:
 			if strings.HasSuffix(s.Path, "Threshold") {
@@ -895,6 +906,45 @@ func c15Semantic(name string, data []byte, r *vk.Rand) []adv.Variant {
 							}
 						}
 					}
+				}
+			}
+		}
+	}
+	// a too-short prime together with owner Pedersen parameters that suit the shrunken modulus (two cooperating
+	// fields: the owner's s and t are only checked against the modulus recomputed from the stored primes)
+	if m, ok := root.(map[interface{}]interface{}); ok {
+		own, _ := m["ID"].(string)
+		var sP, sS, sT *adv.Site
+		for i := range sites {
+			sx := sites[i]
+			if sx.Path == "/P" {
+				sP = &sites[i]
+			}
+			if strings.HasPrefix(sx.Path, "/Public[") && (strings.HasSuffix(sx.Path, "/S") || strings.HasSuffix(sx.Path, "/T")) {
+				idPath := sx.Path[:strings.LastIndex(sx.Path, "/")] + "/ID"
+				for _, sy := range sites {
+					if sy.Path == idPath {
+						if id, _ := adv.Get(root, sy).(string); id == own {
+							if strings.HasSuffix(sx.Path, "/S") {
+								sS = &sites[i]
+							} else {
+								sT = &sites[i]
+							}
+						}
+					}
+				}
+			}
+		}
+		if sP != nil && sS != nil && sT != nil {
+			pad := func(b []byte) []byte { return append(make([]byte, 128-len(b)), b...) }
+			sp, _ := new(big.Int).SetString(c15SafePrime1023, 16)
+			for _, pv := range []struct {
+				name string
+				p    []byte
+			}{{"prime-1023-bit-safe-padded+owner-s=4,t=9", pad(sp.Bytes())}, {"prime-7-padded+owner-s=4,t=9", pad([]byte{7})}} {
+				r2 := adv.With(adv.With(adv.With(root, *sP, pv.p, false), *sS, []byte{4}, false), *sT, []byte{9}, false)
+				if b, err := adv.Encode(r2); err == nil {
+					out = append(out, adv.Variant{Path: "/P+owner/S+owner/T", Kind: "semantic", Mutation: pv.name, Data: b})
 				}
 			}
 		}
